@@ -178,6 +178,29 @@ func checkC02(w *Worker) {
 		}
 		verify(x, bi, ri, book, lg)
 	})
+	// exotic names in every role (undefined food, recipe, element): the register must show them verbatim
+	w.Explore("exotic-names", ExploreOpts{ShardDepth: 3}, func(x *Exec) {
+		ri := x.Choose(nRend, "input:renderer")
+		n1 := c13Names[x.Choose(len(c13Names), "input:name")]
+		role := x.Choose(3, "input:role")
+		if n1 == "cal" || n1 == "fat" || n1 == "r1" || n1 == "r2" || n1 == "u" {
+			x.Case("skip-name-in-use", false)
+			return
+		}
+		book := absBook{{"r1", []absIng{{"cal", 2}, {"fat", 0.5}}}}
+		d := absDay{Date: dates[0]}
+		switch role {
+		case 0: // undefined food
+			d.Entries = []absIng{{n1, 2}, {"r1", 1}, {n1, -0.5}}
+		case 1: // recipe name
+			book = append(book, absRecipe{n1, []absIng{{"cal", 3}, {"r1", 1}}})
+			d.Entries = []absIng{{n1, 2}, {"u", 1}}
+		default: // element name
+			book = append(book, absRecipe{"r2", []absIng{{n1, 1.5}, {"cal", 1}}})
+			d.Entries = []absIng{{"r2", 2}, {n1, 1}}
+		}
+		verify(x, 0, ri, book, absLog{d})
+	})
 	// merge shapes: longer days over a small food alphabet; the i-th entry has quantity 2^i, so the
 	// merged quantity of a food identifies exactly which entries were folded into it
 	maxLen := 6
